@@ -23,6 +23,8 @@ def core_fp(mem_dtors=(), on_evt=(), on_start=(), on_stop=(), on_eval=(), contai
     if mem_dtors:
         rules.append((r"header\.dtor$", list(mem_dtors)))
     if container_dtors:
+        # the modules' source registries (bst) have their own element destructor since the C20 fix
+        rules.append((r"remove_node::l(\$link\d+)?\.dtor$", list(container_dtors) + [fl("mod_src_dtor", "src.c")]))
         rules.append((r"(::q|::s|::l|::m|\$link\d+|\.q\)|\.s\)|\.l\))\.dtor$", list(container_dtors)))
     if on_evt:
         rules.append((r"^call_pubsub_cb::.*cb$", list(on_evt)))
